@@ -4,7 +4,7 @@ PROP = dict(
     level="proof",
     lean_modules=['PopsModel.Props.C17', 'PopsModel.Props.C17Kern', 'PopsModel.Props.NonVacuous.Host', 'PopsModel.Props.NonVacuous.KernelsReal'],
     theorems=['Pops.C17_departure_rule', 'Pops.C17_leaving', 'Pops.C17_arrival', 'Pops.C17_two_phase', 'Pops.C17_outside_recorded', 'Pops.C17_movement_rows', 'Pops.C17_movement_once', 'Pops.C17_movement_amount', 'Pops.C17_overpopulation_kernel_scale', 'Pops.C17_overpopulation_kernel_rejects', 'Pops.C17_overpopulation_kernel_is_natural', 'Pops.C17_overpopulation_uniform_range'],
-    commands=['hp.pestsfrom', 'hp.peststo', 'hp.move', 'hp.overpop', 'hp.movement', 'kern.overpop', 'mm.overpop', 'mm.movement'],
+    commands=['hp.pestsfrom', 'hp.peststo', 'hp.move', 'hp.overpop', 'hp.movement', 'kern.overpop', 'mm.overpop', 'mm.movement', 'hp.findsuit'],
     runs={
         "quick": [('h_host', 'pool', 0, 1500), ('h_model', 'model', 0, 400), ('h_kern', 'overpop', 0, 1600), ('h_mmodel', 'multi', 0, 150), ('h_sim', 'sim', 0, 300)],
         "thorough": [('h_host', 'pool', 0, 150000), ('h_model', 'model', 0, 20000), ('h_kern', 'overpop', 0, 60000), ('h_mmodel', 'multi', 0, 5000), ('h_sim', 'sim', 0, 20000)],
